@@ -51,3 +51,23 @@ package main
 //@   nosafety
 //@   requires c != nil && cfg != nil
 //@   call DisposePeer args v *vrf.VRF, a *bnet.IP vars p bgpserver.PeerKey requires v == p.VRF() && a == p.Addr() && forall(g, 0, len(cfg.Groups), spec_noneIn(cfg.Groups[g], p))
+
+// A changed neighbor: when the session is replaced it is the old one that goes
+// and the new configuration that comes; when the policies are replaced in
+// place, each direction gets the chain configured for it, on the session of the
+// neighbor's address and VRF. (That the choice between the two is NeedsRestart
+// is not stated here: the call result has no name a clause could refer to.)
+//@ import "github.com/bio-routing/bio-rd/routingtable/filter"
+//@ contract (*bgpConfigurator).reconfigureModifiedSession
+//@   props C36
+//@   nosafety
+//@   requires c != nil && bn != nil && newCfg != nil && oldCfg != nil
+//@   call replaceSession args n *bgpserver.PeerConfig, o *bgpserver.PeerConfig requires n == newCfg && o == oldCfg
+//@   call ReplaceImportFilterChain args v *vrf.VRF, a *bnet.IP, ch filter.Chain requires v == newCfg.VRF && a == bn.PeerAddressIP && len(ch) == len(bn.ImportFilterChain) && verif_arrayof(ch) == verif_arrayof(bn.ImportFilterChain)
+//@   call ReplaceExportFilterChain args v *vrf.VRF, a *bnet.IP, ch filter.Chain requires v == newCfg.VRF && a == bn.PeerAddressIP && len(ch) == len(bn.ExportFilterChain) && verif_arrayof(ch) == verif_arrayof(bn.ExportFilterChain)
+
+//@ contract (*bgpConfigurator).replaceSession
+//@   props C36
+//@   nosafety
+//@   requires c != nil && newCfg != nil && oldCfg != nil
+//@   call DisposePeer args v *vrf.VRF, a *bnet.IP requires v == oldCfg.VRF && a == oldCfg.PeerAddress
